@@ -87,6 +87,12 @@ CHECKS.update({
    text="For every request of the C22 base set, notifications carrying exactly the leaves the intent writes (all layouts: 1-2 notifications, all prefix splits) must give an empty DiffSetRequestToNotifications; then every single-leaf edit (remove one leaf, change one value, add one leaf under a deleted/replaced subtree) must make that leaf and only that leaf appear as missing / mismatched / extra respectively.",
    technique="exhaustive enumeration of single-leaf edits of exact notification sets over explored states, exact-classification oracle on the real function", note=VAL_NOTE),
 })
+
+CHECKS.update({
+ "C21": dict(engine="sched", cat="model_checking", sec="5/C21",
+   text="Hand-written cooperative scheduler + depth-first search with iterative preemption bounding over ALL interleavings (bound 2; thorough: 3 threads bound 2 and 2 threads bound 4) of every multiset of 2 (3) thread bodies from a 10-operation alphabet: 7 read-only operations on one shared tree (Validate, Marshal7951, TogNMINotifications, GetNode, Diff, DeepCopy, EncodeTypedValue with a shared config) and 3 writers into their own trees sharing one schema and one set of input messages (Unmarshal, SetNode with JSON tolerance, UnmarshalSetRequest), in simple- and wrapper-union packages. ytypes/string_type.go is compiled from a copy derived at check time with its sync import rewritten to a shim, so every RLock/RUnlock/Lock/Unlock of the regexp cache is a scheduling point (cache reset to cold per execution). Per execution: every result equals the sequential result; the shared tree, messages and config are never written (checked at every scheduling point); the shared schema graph hash is unchanged; no deadlock; prefix replay divergence is a hard error. A separate free-running -race pass over the same bodies (pairs and triples, GOMAXPROCS 2/4/16) is complementary sampling evidence.",
+   technique="stateless model checking: controlled scheduler with DFS over interleavings (iterative preemption bounding) of the real code at its synchronisation points, invariant on shared objects at every point", note="scheduling points exist only at lock operations and operation boundaries, so unsynchronised plain-memory conflicts are covered by the never-written invariant and the sampled race-detector pass, not by the search; executions with more preemptions than the bound are not explored; trusted base: harness/sched, reflect-based snapshots"),
+})
 ALL = [json.loads(l)["id"] for l in open(os.path.join(V, "properties.jsonl"))]
 NA = {
 }
